@@ -37,6 +37,16 @@
 (* on or off the path can send one) while its request is pending, before   *)
 (* or instead of the genuine reply (Scmp).  It is one more datagram the    *)
 (* receive loop turns down; it says nothing about the cookie that was sent.*)
+(* The server answers in some NTP header state (ServerHandle(h)): as a      *)
+(* synchronised server ("sync": leap indicator 0..2, stratum 1..15) or,    *)
+(* right after start-up or after losing its reference, as an unsynchronised*)
+(* one ("li3": leap indicator 3, "str0" / "str16": stratum 0 / 16).  Such a *)
+(* reply is as authentic as any other.  measureClockOffsetIP / ...SCION run *)
+(* nts.ProcessResponse (unique identifier, authenticator, StoreCookie for   *)
+(* every cookie) BEFORE ntp.ValidateResponseMetadata: the cookies of the    *)
+(* reply are in the pool when the header makes the call return an error     *)
+(* (no retry: the call ends).  No datagram was lost: the history stays      *)
+(* loss-free.                                                               *)
 (* Probe is an authenticated request of some other NTS client of the same  *)
 (* server carrying an arbitrary number of cookie/placeholder fields.       *)
 (*                                                                         *)
@@ -70,7 +80,8 @@ CONSTANTS
   ProbeUids,     \* lengths of the unique identifiers other clients may send (>= 32)
   MaxOld,        \* number of earlier replies the network may still deliver (model checking only)
   Transports,    \* the clients a behaviour may be run with: subset of {"ip", "scion"}
-  ScmpTypes      \* SCMP messages the network may hand to the waiting SCION client
+  ScmpTypes,     \* SCMP messages the network may hand to the waiting SCION client
+  HdrStates      \* NTP header states the server may answer in: subset of {"sync", "li3", "str0", "str16"}
 
 (***************************************************************************)
 (* Wire sizes (net/nts/nts.go: extension fields are 4-byte aligned)        *)
@@ -133,7 +144,7 @@ vars == <<now, prov, pool, sess, used, seen, phase, net, rep, pre, clean, nex, n
 \* behaviours that agree on the rest
 view == <<now, prov, [i \in DOMAIN pool |-> <<pool[i].key, pool[i].sess>>], sess, phase,
           IF net.k = "req" THEN <<net.cookie.key, net.cookie.sess, net.p, net.bad>> ELSE <<>>,
-          IF rep.k = "none" THEN <<>> ELSE <<rep.k, rep.n, rep.u, Len(rep.cookies), rep.bad, "kv" \in DOMAIN rep /\ rep.kv>>,
+          IF rep.k = "none" THEN <<>> ELSE <<rep.k, rep.n, rep.u, Len(rep.cookies), rep.bad, rep.hdr, "kv" \in DOMAIN rep /\ rep.kv>>,
           pre, clean, nex, obs, [i \in DOMAIN old |-> <<old[i].sess, old[i].ex>>], tries, tr>>
 
 \* without a bound on the number of exchanges (MaxEx large) the counters and
@@ -141,7 +152,7 @@ view == <<now, prov, [i \in DOMAIN pool |-> <<pool[i].key, pool[i].sess>>], sess
 \* because the clock stops at Horizon
 viewU == <<now, prov, [i \in DOMAIN pool |-> <<pool[i].key, pool[i].sess = sess>>], phase,
            IF net.k = "req" THEN <<net.cookie.key, net.cookie.sess = sess, net.p, net.bad>> ELSE <<>>,
-           IF rep.k = "none" THEN <<>> ELSE <<rep.k, rep.n, rep.u, Len(rep.cookies), rep.bad, "kv" \in DOMAIN rep /\ rep.kv>>,
+           IF rep.k = "none" THEN <<>> ELSE <<rep.k, rep.n, rep.u, Len(rep.cookies), rep.bad, rep.hdr, "kv" \in DOMAIN rep /\ rep.kv>>,
            pre, clean, sess > 0, obs, [i \in DOMAIN old |-> <<old[i].sess = sess, old[i].ex = nex>>], tries, tr>>
 
 NoMsg == [k |-> "none"]
@@ -183,10 +194,10 @@ NewCookies(k, s, m) == [i \in 1 .. m |-> [id |-> nextId + i - 1, key |-> k, sess
 \* the reply is encoded with EncodePacket into a MaxPacketLen buffer: what does
 \* not fit is cut off (the authenticator's ciphertext is the last thing written).
 \* The requester's unique identifier (u bytes) is echoed and takes its share.
-ReplyFor(kind, n, s, pv, u) ==
+ReplyFor(kind, n, s, pv, u, h) ==
   LET m  == IF CapReply THEN Min2(n, MaxFitU(u)) ELSE n
       cs == NewCookies(pv.cur, s, m)
-  IN [k |-> kind, n |-> n, u |-> u, cookies |-> cs, sess |-> s,
+  IN [k |-> kind, n |-> n, u |-> u, cookies |-> cs, sess |-> s, hdr |-> h,
       size |-> Min2(RespSizeU(m, u), MaxPacketLen),
       bad |-> RespSizeU(m, u) > MaxPacketLen]
 
@@ -224,7 +235,7 @@ Rekey ==
      IN /\ prov' = pv
         /\ sess' = sess + 1
         /\ pool' = cs
-        /\ rep' = [k |-> "ke", n |-> 8, u |-> OwnUid, cookies |-> cs, sess |-> sess + 1, size |-> 0, bad |-> FALSE]
+        /\ rep' = [k |-> "ke", n |-> 8, u |-> OwnUid, cookies |-> cs, sess |-> sess + 1, hdr |-> "sync", size |-> 0, bad |-> FALSE]
         /\ seen' = seen \cup Ids(cs)
         /\ nextId' = nextId + 8
   /\ obs' = "rekey"
@@ -262,11 +273,12 @@ LoseRequest ==
 
 \* runIPServer: Decode, provider.Get(cookie key id), Decrypt, ProcessRequest;
 \* then Current() and one new cookie per field
-ServerHandle ==
+\* handleRequest fills in the NTP header: h is the state the server is in
+ServerHandle(h) ==
   /\ phase = "req"
   /\ IF ~net.bad /\ KeyValid(net.cookie.key)
      THEN LET pv == CurrentP(prov, now)
-              r  == ReplyFor("ntp", net.ncookie + net.nph, net.cookie.sess, pv, OwnUid)
+              r  == ReplyFor("ntp", net.ncookie + net.nph, net.cookie.sess, pv, OwnUid, h)
           IN /\ prov' = pv
              /\ rep' = r
              /\ seen' = seen \cup Ids(r.cookies)
@@ -283,6 +295,8 @@ LoseResponse ==
   /\ phase' = "wait" /\ rep' = NoMsg /\ clean' = FALSE /\ obs' = "loseresp"
   /\ UNCHANGED <<now, prov, pool, sess, used, seen, net, pre, nex, nextId, old, tries, tr>>
 
+\* ntp.ValidateResponseMetadata: leap indicator # 3, stratum in 1..15
+Synced(h) == h = "sync"
 \* ProcessResponse: unique id, authenticate, StoreCookie for every cookie.
 \* A reply that was cut off does not authenticate: the client keeps waiting.
 ClientReceive ==
@@ -292,7 +306,11 @@ ClientReceive ==
           /\ IF tries < MaxRetries
              THEN phase' = "wait" /\ obs' = "reject" /\ tries' = tries + 1
              ELSE phase' = "idle" /\ obs' = "fail" /\ tries' = 0
-     ELSE /\ phase' = "idle" /\ obs' = "store" /\ UNCHANGED clean
+     \* ... an authentic one: its cookies are stored; then the NTP header is looked
+     \* at (ValidateResponseMetadata): an unsynchronised server's reply ends the call
+     \* with an error, without a measurement - and with the cookies in the pool
+     ELSE /\ phase' = "idle" /\ UNCHANGED clean
+          /\ obs' = IF Synced(rep.hdr) THEN "store" ELSE "fail"
           /\ pool' = pool \o rep.cookies
           /\ tries' = 0
   /\ rep' = NoMsg
@@ -365,14 +383,14 @@ Probe(n, u, k) ==
          ck == IF k = 0 THEN pk.cur ELSE k
          kv == ValidAt(pk, ck, now)
          pv == CurrentP(pk, now)
-         r  == ReplyFor("probe", n, 0, pv, u)
+         r  == ReplyFor("probe", n, 0, pv, u, "sync")
      IN IF UidAccepted(u) /\ kv
         THEN /\ prov' = pv
              /\ rep' = r @@ [ck |-> ck, kv |-> kv]
              /\ seen' = seen \cup Ids(r.cookies)
              /\ nextId' = nextId + Len(r.cookies)
         ELSE /\ prov' = pk
-             /\ rep' = [k |-> "dropped", n |-> n, u |-> u, cookies |-> << >>, sess |-> 0,
+             /\ rep' = [k |-> "dropped", n |-> n, u |-> u, cookies |-> << >>, sess |-> 0, hdr |-> "sync",
                         size |-> 0, bad |-> FALSE, ck |-> ck, kv |-> kv]
              /\ UNCHANGED <<seen, nextId>>
   /\ nex' = nex + 1
@@ -380,7 +398,8 @@ Probe(n, u, k) ==
   /\ UNCHANGED <<now, pool, sess, used, phase, net, pre, clean, old, tries, tr>>
 
 Next ==
-  \/ Rekey \/ SendRequest \/ LoseRequest \/ ServerHandle \/ LoseResponse
+  \/ Rekey \/ SendRequest \/ LoseRequest \/ LoseResponse
+  \/ \E h \in HdrStates : ServerHandle(h)
   \/ ClientReceive \/ Timeout
   \/ \E i \in DOMAIN old : Replay(i) \/ Stray(i)
   \/ \E t \in ScmpTypes : Scmp(t)
